@@ -209,15 +209,17 @@ func (w *zvC28World) msgWithdraw(z *zvBmpBuf, n int, slots ...int) {
 // events and the reference model
 // ---------------------------------------------------------------------------
 
+const zvC28OtherAS = 65099
+
 type zvC28Ev struct {
-	K string `json:"ev"`             // connect | init | up | ann | wd | ann2 | wd2 | down | term | loss | obs
+	K string `json:"ev"`             // connect | init | up | upx | ann | wd | ann2 | wd2 | down | term | loss | obs (upx: neighbour 0 comes up in another AS, one the receiver does not ignore)
 	N int    `json:"peer,omitempty"` // neighbour index
 	S int    `json:"slot,omitempty"` // route slot index
 }
 
 func (e zvC28Ev) String() string {
 	switch e.K {
-	case "up", "down", "ann2", "wd2":
+	case "up", "upx", "down", "ann2", "wd2":
 		return fmt.Sprintf("%s(%d)", e.K, e.N)
 	case "ann", "wd":
 		return fmt.Sprintf("%s(%d,%d)", e.K, e.N, e.S)
@@ -249,6 +251,9 @@ func (m *zvC28Model) apply(w *zvC28World, e zvC28Ev) {
 		m.sess[e.N] = true
 		m.up[e.N] = !m.ign[e.N]
 		m.have[e.N] = map[int]bool{}
+	case "upx":
+		m.sess[e.N], m.up[e.N] = true, true // this session's AS is not on the ignore list
+		m.have[e.N] = map[int]bool{}
 	case "ann":
 		m.have[e.N][e.S] = true
 	case "wd":
@@ -277,6 +282,9 @@ func (m *zvC28Model) enabled(w *zvC28World) []zvC28Ev {
 	for n := 0; n < len(w.peers); n++ {
 		if !m.sess[n] {
 			out = append(out, zvC28Ev{K: "up", N: n})
+			if n == 0 && w.cfg.IgnoreAS0 {
+				out = append(out, zvC28Ev{K: "upx", N: n})
+			}
 			continue
 		}
 		for s := range w.slots {
@@ -415,6 +423,13 @@ func (x *zvC28Run) privateDump() string {
 			s += fmt.Sprintf(" %v/rx=%v", ks, af.addPathRX)
 		}
 		parts = append(parts, s)
+	}
+	// what the receiver remembers about peers it does not monitor
+	for ip := range x.r.ignoredPeers {
+		parts = append(parts, fmt.Sprintf("ign %x", ip))
+	}
+	for k := range x.r.ignoredPeerVRFs {
+		parts = append(parts, fmt.Sprintf("ignv %+v", k))
 	}
 	sort.Strings(parts)
 	return strings.Join(parts, ";")
@@ -596,6 +611,7 @@ func zvC28Step(r *vh.Run, w *zvC28World, hist []zvC28Ev) (canon string, enabled 
 		var steps []step
 		j := i
 		closedBy := ""
+		origAS0 := w.peers[0].AS
 		for ; j < len(hist); j++ {
 			e := hist[j]
 			if e.K == "connect" && j > i {
@@ -605,6 +621,12 @@ func zvC28Step(r *vh.Run, w *zvC28World, hist []zvC28Ev) (canon string, enabled 
 			case "connect", "init":
 				w.msgInit(z)
 			case "up":
+				if e.N == 0 {
+					w.peers[0].AS = origAS0
+				}
+				w.msgUp(z, e.N)
+			case "upx":
+				w.peers[0].AS = zvC28OtherAS // the per-peer headers of this session's messages carry it
 				w.msgUp(z, e.N)
 			case "ann":
 				w.msgAnnounce(z, e.N, e.S)
@@ -629,6 +651,7 @@ func zvC28Step(r *vh.Run, w *zvC28World, hist []zvC28Ev) (canon string, enabled 
 				break
 			}
 		}
+		w.peers[0].AS = origAS0
 		isLastSeg := j == len(hist)
 		conn := zvBmpNewConn(z.B)
 		// boundaries: one per distinct message end, in order
